@@ -90,6 +90,17 @@ func (w *World) roots(v ssa.Value, depth int, seen map[ssa.Value]bool) rootSet {
 			out.add(w.roots(e, depth+1, seen))
 		}
 	case *ssa.Extract:
+		if nx, ok := x.Tuple.(*ssa.Next); ok {
+			if rg, ok := nx.Iter.(*ssa.Range); ok {
+				return w.roots(rg.X, depth+1, seen)
+			}
+		}
+		if lk, ok := x.Tuple.(*ssa.Lookup); ok {
+			return w.roots(lk, depth+1, seen)
+		}
+		if ta, ok := x.Tuple.(*ssa.TypeAssert); ok {
+			return w.roots(ta.X, depth+1, seen)
+		}
 		return w.rootsCall(x.Tuple, x.Index, depth, seen)
 	case *ssa.Call:
 		return w.rootsCall(x, 0, depth, seen)
